@@ -16,7 +16,7 @@ LEVEL = "model_checking"
 RULE = ("rewrites: nullable notation (3.0 nullable / 3.1 type list / trailing oneOf or anyOf null member), enum with null vs explicit "
         "union, single-element allOf/oneOf/anyOf wrapper vs bare $ref, boolean vs numeric exclusive bounds - each at every "
         "applicable position (property, item, additionalProperties, union member, parameter, body, response, component root) x "
-        "kind, alone (thorough: pairs of positions); loaders: JSON vs YAML vs extension-less files, file vs loopback URL with 6 "
+        "kind, alone (thorough: pairs of positions); positions include component-level array items / union members and positions where ONE schema object is used several times (path-item parameter, reusable parameter / response / request body, one response under two statuses); 3.0 nullable next to both a type and a composition keyword; wrapper targets include a model with nested inline classes and a composed child (every declaration order); loaders: JSON vs YAML vs extension-less files, file vs loopback URL with 6 "
         "content types, over tricky-scalar documents and the repository's baseline documents; oracle: byte-identical trees and "
         "equal diagnostics; non-trivial = all variants generated and compared")
 FLOOR = 0.5
